@@ -41,7 +41,8 @@ type G struct {
 	exited  bool
 	parked  bool
 	goid    int64
-	Spawned int64 // step at which it was spawned
+	held    atomic.Int32 // exclusive locks taken through simrt.Lock and not yet released
+	Spawned int64        // step at which it was spawned
 }
 
 // Crash is an unrecovered panic of a managed goroutine: in the real process it
@@ -82,6 +83,7 @@ type Sim struct {
 	Log            func(format string, a ...any)
 	rtBase         uint64 // base of the runtime random source for this run
 	skew           atomic.Int64
+	holderG        atomic.Pointer[G]
 	holder         atomic.Int64 // goid of the goroutine that was granted the baton and has not parked since
 	Resumes        int64        // goroutines that woke from a blocking call the instrumenter does not see and re-queued
 
@@ -220,10 +222,19 @@ func Preempt(site string) {
 	x ^= x >> 31
 	x *= 0xBF58476D1CE4E5B9
 	x ^= x >> 29
-	if x%s.preemptMean != 0 || s.killed.Load() {
+	mean := s.preemptMean
+	g := s.holderG.Load()
+	if g != nil && g.goid == fastGoid() && g.held.Load() > 0 && mean > 8 {
+		// inside a critical section of one of qryn's own mutexes a switch is eight times as likely: state
+		// that is shared although each holder believes it is protected shows only there
+		mean /= 8
+	}
+	if x%mean != 0 || s.killed.Load() {
 		return
 	}
-	g := s.self()
+	if g == nil || g.goid != fastGoid() {
+		g = s.self()
+	}
 	if g == nil || g.dying {
 		return
 	}
@@ -388,6 +399,7 @@ func (s *Sim) loop() {
 		s.mix(g.Role, g.site)
 		s.mu.Unlock()
 		s.holder.Store(g.goid)
+		s.holderG.Store(g)
 		// the runtime's random source restarts at every grant: a draw the simulator does not see (a new OS
 		// thread seeding itself) then shifts the sequence for one slice, not for the rest of the run
 		SeedRuntime(s.rtBase + uint64(s.Steps)*0xD1B54A32D192ED03)
@@ -575,6 +587,7 @@ func Lock(site string, m locker) {
 		}
 		s.park(g, site, m)
 	}
+	g.held.Add(1)
 }
 
 // Unlock replaces m.Unlock().
@@ -586,6 +599,7 @@ func Unlock(site string, m locker) {
 	}
 	s.release(m)
 	if g := s.self(); g != nil {
+		g.held.Add(-1)
 		s.park(g, site, nil)
 	}
 }
